@@ -181,6 +181,141 @@ def _feeding_stmts(func: ast.AST, cfg, expr: ast.AST, at: ast.stmt) -> list[tupl
     return out
 
 
+_UNROLLED: dict = {}
+
+
+def _unrolled(func: ast.AST) -> ast.AST:
+    """``func`` itself, or a copy of it in which a repetition over a LITERAL tuple of plain expressions is written out:
+
+    ``a, b = (f(x) for x in (p, q))``          ->  ``a = f(p); b = f(q)``
+    ``for n, d in ((N1, D1), (N2, D2)): g(n, d)``  ->  ``g(N1, D1); g(N2, D2)``
+
+    Only when this is the same computation: the items are names / attribute chains / constants, the loop has no
+    break/continue/else and does not re-bind its own variables, which are not read after it; the targets of the
+    unpacking are plain names that the unpacked expressions do not read.
+    """
+    if id(func) in _UNROLLED:
+        return _UNROLLED[id(func)][1]
+    import copy
+
+    def plain(e: ast.AST) -> bool:
+        if isinstance(e, (ast.Tuple, ast.List)):
+            return all(plain(x) for x in e.elts)
+        while isinstance(e, ast.Attribute):
+            e = e.value
+        return isinstance(e, (ast.Name, ast.Constant))
+
+    def bind(target: ast.AST, item: ast.AST) -> dict[str, ast.AST] | None:
+        if isinstance(target, ast.Name):
+            return {target.id: item}
+        if isinstance(target, (ast.Tuple, ast.List)) and isinstance(item, (ast.Tuple, ast.List)) and len(target.elts) == len(item.elts):
+            out: dict[str, ast.AST] = {}
+            for t, i in zip(target.elts, item.elts):
+                b = bind(t, i)
+                if b is None or set(b) & set(out):
+                    return None
+                out.update(b)
+            return out
+        return None
+
+    class Subst(ast.NodeTransformer):
+        def __init__(self, mapping):
+            self.mapping = mapping
+
+        def visit_Name(self, node):  # noqa: N802
+            if isinstance(node.ctx, ast.Load) and node.id in self.mapping:
+                return ast.copy_location(copy.deepcopy(self.mapping[node.id]), node)
+            return node
+
+        def visit_Call(self, node):  # noqa: N802
+            bound = getattr(node, "_gv_bind", None)  # parameter -> argument node (gv.canon): keep it on the new arguments
+            where = {}
+            if bound:
+                where = {id(a): (0, i) for i, a in enumerate(node.args)}
+                where.update({id(k.value): (1, i) for i, k in enumerate(node.keywords)})
+            self.generic_visit(node)
+            if bound:
+                now = (node.args, [k.value for k in node.keywords])
+                node._gv_bind = {p: (now[where[id(a)][0]][where[id(a)][1]] if id(a) in where else a) for p, a in bound.items()}
+            return node
+
+    def subst(node: ast.AST, mapping: dict[str, ast.AST]) -> ast.AST:
+        new = Subst(mapping).visit(copy.deepcopy(node))
+        ast.fix_missing_locations(new)
+        return new
+
+    changed = []
+
+    def loads(node: ast.AST, names: set[str]) -> int:
+        return sum(1 for n in ast.walk(node) if isinstance(n, ast.Name) and isinstance(n.ctx, ast.Load) and n.id in names)
+
+    def rewrite(stmts: list[ast.stmt], root: ast.AST) -> list[ast.stmt]:
+        out: list[ast.stmt] = []
+        for s in stmts:
+            if isinstance(s, (ast.FunctionDef, ast.AsyncFunctionDef, ast.ClassDef)):
+                out.append(s)
+                continue
+            if isinstance(s, ast.Assign) and len(s.targets) == 1 and isinstance(s.targets[0], (ast.Tuple, ast.List)) and all(isinstance(t, ast.Name) for t in s.targets[0].elts) and isinstance(s.value, (ast.GeneratorExp, ast.ListComp)) and len(s.value.generators) == 1:
+                g = s.value.generators[0]
+                tg = s.targets[0].elts
+                if not g.ifs and not g.is_async and isinstance(g.iter, (ast.Tuple, ast.List)) and len(g.iter.elts) == len(tg) and plain(g.iter) and not ({t.id for t in tg} & names_in(s.value)):
+                    maps = [bind(g.target, item) for item in g.iter.elts]
+                    if all(m is not None for m in maps):
+                        for t, m in zip(tg, maps):
+                            out.append(ast.copy_location(ast.Assign(targets=[ast.Name(id=t.id, ctx=ast.Store())], value=subst(s.value.elt, m), lineno=s.lineno), s))
+                            ast.fix_missing_locations(out[-1])
+                        changed.append(s)
+                        continue
+            if isinstance(s, ast.For) and not s.orelse and isinstance(s.iter, (ast.Tuple, ast.List)) and s.iter.elts and plain(s.iter):
+                maps = [bind(s.target, item) for item in s.iter.elts]
+                own = names_in(s.target)
+                body_nodes = [n for b in s.body for n in ast.walk(b)]
+                quiet = not any(isinstance(n, (ast.Break, ast.Continue)) for n in body_nodes) and not any(isinstance(n, ast.Name) and isinstance(n.ctx, (ast.Store, ast.Del)) and n.id in own for n in body_nodes)
+                if all(m is not None for m in maps) and quiet and loads(root, own) == sum(loads(b, own) for b in s.body):
+                    for m in maps:
+                        out += rewrite([subst(b, m) for b in s.body], root)
+                    changed.append(s)
+                    continue
+            for fld in ("body", "orelse", "finalbody"):
+                if isinstance(getattr(s, fld, None), list) and getattr(s, fld) and isinstance(getattr(s, fld)[0], ast.stmt):
+                    setattr(s, fld, rewrite(getattr(s, fld), root))
+            for h in getattr(s, "handlers", []) or []:
+                h.body = rewrite(h.body, root)
+            out.append(s)
+        return out
+
+    new = copy.deepcopy(func)
+    new.body = rewrite(new.body, new)
+    if not changed:
+        new = func
+    _UNROLLED[id(func)] = (func, new)
+    _UNROLLED[id(new)] = (new, new)
+    return new
+
+
+def _dataset_writes(func: ast.AST) -> list[tuple[ast.AST, ast.AST, ast.AST | None]]:
+    """(node, name, data) of the datasets a function creates in an HDF5 group: ``g.create_dataset(name, data=d)``
+    and the item assignment ``g[name] = d`` (h5py creates the dataset ``name`` holding ``d``)."""
+    out = []
+    for n in walk_body(func):
+        if isinstance(n, ast.Call) and last_attr(n) == "create_dataset" and isinstance(n.func, ast.Attribute) and arg_or_kw(n, 0, "name") is not None:
+            out.append((n, arg_or_kw(n, 0, "name"), kwarg(n, "data")))
+        elif isinstance(n, ast.Assign) and len(n.targets) == 1 and isinstance(n.targets[0], ast.Subscript) and not isinstance(n.targets[0].slice, (ast.Slice, ast.Tuple)):
+            out.append((n, n.targets[0].slice, n.value))
+    return out
+
+
+def _csr_conversion(c: ast.AST) -> bool:
+    """``c`` yields its operand in CSR format: ``x.tocsr()``, ``x.asformat("csr")``, ``csr_array(x)`` / ``csr_matrix(x)``."""
+    if not isinstance(c, ast.Call):
+        return False
+    if isinstance(c.func, ast.Attribute) and c.func.attr == "tocsr":
+        return True
+    if isinstance(c.func, ast.Attribute) and c.func.attr == "asformat":
+        return const_value(arg_or_kw(c, 0, "format")) == "csr"
+    return last_attr(c) in ("csr_array", "csr_matrix") and len(c.args) == 1 and not isinstance(c.args[0], ast.Tuple)
+
+
 def check_database_tables(ctx: Ctx) -> None:
     w = ctx.index.method(HD, "HDFDatabase", "to_file")
     r = ctx.index.method(HD, "HDFDatabase", "update_from_file")
@@ -447,8 +582,8 @@ def check_pending(ctx: Ctx) -> None:
 
 
 def check_design_space_tables(ctx: Ctx) -> None:
-    w = ctx.index.method(DS, "DesignSpace", "to_hdf")
-    r = ctx.index.method(DS, "DesignSpace", "from_hdf")
+    w = _unrolled(ctx.index.method(DS, "DesignSpace", "to_hdf"))
+    r = _unrolled(ctx.index.method(DS, "DesignSpace", "from_hdf"))
 
     def groups(func):
         return {n.attr for n in walk_body(func) if isinstance(n, ast.Attribute) and n.attr.endswith("_GROUP")}
@@ -465,18 +600,17 @@ def check_design_space_tables(ctx: Ctx) -> None:
     ctx.ob("11.1-ds-groups", cname(DS, "DesignSpace"), len(set(vals.values())) == len(vals), f"two *_GROUP constants share a value: {vals}", node=cls.node, stmt="distinct dataset names")
     # what is written under each name
     wr = {}
-    for c in walk_body(w):
-        if isinstance(c, ast.Call) and last_attr(c) == "create_dataset" and isinstance(arg_or_kw(c, 0, "name"), ast.Attribute):
-            d = kwarg(c, "data")
+    for _c, nm, d in _dataset_writes(w):
+        if isinstance(nm, ast.Attribute):
             if isinstance(d, ast.Name):
                 defs = [s for s in stmts_of(w) if isinstance(s, ast.Assign) and dotted(s.targets[0]) == d.id]
                 d = defs[0].value if len(defs) == 1 else d
-            wr[arg_or_kw(c, 0, "name").attr] = unparse(d) if d is not None else ""
+            wr[nm.attr] = unparse(d) if d is not None else ""
     want = {"SIZE_GROUP": "variable.size", "LB_GROUP": "variable.lower_bound", "UB_GROUP": "variable.upper_bound"}
     for k, v in want.items():
         ctx.ob("11.1-ds-fields", cname(DS, "DesignSpace", "to_hdf"), wr.get(k) == v, f"{k} must hold {v}, found {wr.get(k)}", node=w, stmt=f"{k} <- {v}")
     # the current value is written variable by variable: the test that guards it is about THIS variable
-    vcalls = [c for c in walk_body(w) if isinstance(c, ast.Call) and last_attr(c) == "create_dataset" and norm_stmt(arg_or_kw(c, 0, "name")).endswith("VALUE_GROUP")]
+    vcalls = [c for c, nm, _d in _dataset_writes(w) if norm_stmt(nm).endswith("VALUE_GROUP")]
     okv = len(vcalls) == 1
     if okv:
         from gv.cfg import cfg_of as _cfg_of
@@ -487,7 +621,7 @@ def check_design_space_tables(ctx: Ctx) -> None:
         if okv:
             lvars = {n_.id for n_ in ast.walk(lp.target) if isinstance(n_, ast.Name)}
             ldefs = {s_.targets[0].id: s_.value for s_ in ast.walk(lp) if isinstance(s_, ast.Assign) and isinstance(s_.targets[0], ast.Name)}
-            tests = [cg.ast[t].test for (t, v), b in cg.branch.items() if cg.kind[t] == "test" and cg.dominates(b, cg.node_of(rules.enclosing_stmt(w, vcalls[0]))) and any(sub is cg.ast[t] for sub in ast.walk(lp))]
+            tests = [cg.ast[t].test for (t, v), b in cg.branch.items() if cg.kind[t] == "test" and cg.dominates(b, cg.node_of(vcalls[0] if isinstance(vcalls[0], ast.stmt) else rules.enclosing_stmt(w, vcalls[0]))) and any(sub is cg.ast[t] for sub in ast.walk(lp))]
             def names(e, depth=0):
                 out = set()
                 for n_ in ast.walk(e):
@@ -543,10 +677,10 @@ def check_design_space_tables(ctx: Ctx) -> None:
 
 
 def check_cache_tables(ctx: Ctx) -> None:
-    w = ctx.index.method(HS, "HDF5FileSingleton", "write_data")
-    sw = ctx.index.method(HS, "HDF5FileSingleton", "__write_sparse_array")
-    rd = ctx.index.method(HS, "HDF5FileSingleton", "read_data")
-    sr = ctx.index.method(HS, "HDF5FileSingleton", "__read_sparse_array")
+    w = _unrolled(ctx.index.method(HS, "HDF5FileSingleton", "write_data"))
+    sw = _unrolled(ctx.index.method(HS, "HDF5FileSingleton", "__write_sparse_array"))
+    rd = _unrolled(ctx.index.method(HS, "HDF5FileSingleton", "read_data"))
+    sr = _unrolled(ctx.index.method(HS, "HDF5FileSingleton", "__read_sparse_array"))
     rh = ctx.index.method(HS, "HDF5FileSingleton", "read_hashes")
 
     def sp_attrs(func):
@@ -581,14 +715,14 @@ def check_cache_tables(ctx: Ctx) -> None:
         trip = ctor[0].args[0].elts
         ok = dotted(trip[0]) == sr.args.args[-1].arg and [attr_read(e) for e in trip[1:]] == ["INDICES", "INDPTR"] and attr_read(arg_or_kw(ctor[0], 1, "shape")) == "SHAPE"
     ctx.ob("11.1-cache-sparse", cname(HS, "HDF5FileSingleton", "__read_sparse_array"), ok, "a CSR array must be rebuilt as (data, indices, indptr), shape", node=(ctor or [sr])[0])
-    csr = [c for c in walk_body(sw) if isinstance(c, ast.Call) and last_attr(c) == "tocsr"]
+    csr = [c for c in walk_body(sw) if _csr_conversion(c)]
     ok = len(csr) == 1
     if ok:
         # ... on every path: the reader rebuilds a CSR array whatever was written, so a CSC/BSR value (which also has
         # indices/indptr, but column- or block-oriented) written as it is comes back transposed or mis-shaped
         cfg_w = cfg_of(sw)
         cn_ = cfg_w.node_of(csr[0])
-        writes = [c for c in walk_body(sw) if isinstance(c, ast.Call) and last_attr(c) == "create_dataset"]
+        writes = [c for c, _nm, _d in _dataset_writes(sw)]
         ok = bool(writes) and all(cfg_w.dominates(cn_, cfg_w.node_of(w_)) for w_ in writes) and not [t for t, _ in branch_conditions(cfg_w, cn_) if cfg_w.kind[t] == "test"]
     ctx.ob("11.1-cache-sparse", cname(HS, "HDF5FileSingleton", "__write_sparse_array"), ok, "sparse values must be converted to CSR, unconditionally, before their data/indices/indptr are written (the reader always rebuilds a CSR array)", node=(csr or [sw])[0], stmt="tocsr() before the datasets are written")
     hw = {n.attr for n in walk_body(w) if isinstance(n, ast.Attribute) and n.attr == "HASH_TAG"}
@@ -610,30 +744,274 @@ def check_cache_tables(ctx: Ctx) -> None:
     ctx.ob("11.1-cache-strings", cname(HS, "HDF5FileSingleton", "read_data"), len(enc) == 1 and len(dec) == 1, "string arrays are written as bytes and must be converted back to str when read", node=(dec or [rd])[0])
 
 
-def check_csv_rows(ctx: Ctx) -> None:
-    """11.1-ds-csv: the text reader of a design space reads every field of a variable from the variable's own rows
-    (``k : k + size`` with the cursor ``k`` advanced by ``size``): bounds, value and the missing-value marker alike."""
-    from gv.cursor import check_cursor_loops
+class _Windows:
+    """Linear values of the integer locals of a function along its paths (a small symbolic execution).
 
+    A value is a linear form ``{term: coefficient}``: the term ``"1"`` for constants, a symbol ``@x`` for the value a
+    loop-carried local has when an iteration starts, the text of any other sub-expression (with the locals it reads
+    replaced by their values), or a fresh unknown ``?n`` where two paths disagree.  ``slice(a, b)`` objects are kept
+    as ("slice", a, b, has_step).  Branches are followed separately and joined; a ``continue`` ends an iteration.
+    """
+
+    def __init__(self, stop_at: ast.stmt | None = None, probe=None, tables: set[str] | None = None):
+        self.stop_at = stop_at
+        self.tables = tables or set()  # 2-d tables: ``table[a:b]`` is kept as ("block", a, b): the rows a:b of it
+        self.at_stop: dict | None = None
+        self.ends: list[dict] = []
+        self.probe = probe  # called with (node evaluated, environment) for every expression-bearing statement
+        self.deps: dict[str, set[str]] = {"1": set()}
+        self._fresh = 0
+
+    # -- values
+    def unknown(self) -> dict:
+        self._fresh += 1
+        t = f"?{self._fresh}"
+        self.deps[t] = set()
+        return {t: 1}
+
+    @staticmethod
+    def render(v) -> str:
+        if isinstance(v, tuple):
+            return v[0] + "(" + ", ".join(_Windows.render(x) if isinstance(x, dict) else str(x) for x in v[1:]) + ")"
+        return "<" + " + ".join(f"{c}*{t}" for t, c in sorted(v.items())) + ">" if v else "<0>"
+
+    @staticmethod
+    def add(a: dict, b: dict, k: int = 1) -> dict:
+        out = dict(a)
+        for t, c in b.items():
+            out[t] = out.get(t, 0) + k * c
+        return {t: c for t, c in out.items() if c}
+
+    def names_of(self, v: dict) -> set[str]:
+        out: set[str] = set()
+        for t in v:
+            out |= self.deps.get(t, set())
+        return out
+
+    def opaque(self, e: ast.AST, env: dict) -> dict:
+        import copy
+
+        dep = set()
+
+        class R(ast.NodeTransformer):
+            def visit_Name(inner, node):  # noqa: N802, N805
+                if isinstance(node.ctx, ast.Load) and node.id in env:
+                    v = env[node.id]
+                    if isinstance(v, dict):
+                        dep.update(self.names_of(v))
+                    return ast.Name(id=self.render(v), ctx=ast.Load())
+                dep.add(node.id)
+                return node
+
+        t = ast.unparse(R().visit(copy.deepcopy(e)))
+        self.deps.setdefault(t, set()).update(dep)
+        return {t: 1}
+
+    def value(self, e: ast.AST | None, env: dict):
+        if e is None:
+            return None
+        if isinstance(e, ast.Constant) and isinstance(e.value, int) and not isinstance(e.value, bool):
+            return {"1": e.value} if e.value else {}
+        if isinstance(e, ast.Name):
+            if e.id in env:
+                return env[e.id]
+            self.deps.setdefault(e.id, set()).add(e.id)
+            return {e.id: 1}
+        if isinstance(e, ast.UnaryOp) and isinstance(e.op, (ast.USub, ast.UAdd)):
+            v = self.value(e.operand, env)
+            if isinstance(v, dict):
+                return self.add({}, v, -1 if isinstance(e.op, ast.USub) else 1)
+        if isinstance(e, ast.BinOp) and isinstance(e.op, (ast.Add, ast.Sub)):
+            a, b = self.value(e.left, env), self.value(e.right, env)
+            if isinstance(a, dict) and isinstance(b, dict):
+                return self.add(a, b, 1 if isinstance(e.op, ast.Add) else -1)
+        if isinstance(e, ast.BinOp) and isinstance(e.op, ast.Mult):
+            a, b = self.value(e.left, env), self.value(e.right, env)
+            for x, y in ((a, b), (b, a)):
+                if isinstance(x, dict) and isinstance(y, dict) and set(x) <= {"1"}:
+                    return self.add({}, y, x.get("1", 0))
+        if isinstance(e, ast.Call) and dotted(e.func) == "slice" and not e.keywords and 1 <= len(e.args) <= 3:
+            lo = self.value(e.args[0], env) if len(e.args) > 1 else {}
+            hi = self.value(e.args[1] if len(e.args) > 1 else e.args[0], env)
+            has_step = len(e.args) == 3 and const_value(e.args[2], 0) is not None
+            if isinstance(lo, dict) and isinstance(hi, dict):
+                return ("slice", lo, hi, has_step)
+        if isinstance(e, ast.Subscript) and isinstance(e.value, ast.Name) and e.value.id in self.tables and e.value.id not in env:
+            rows = e.slice.elts[0] if isinstance(e.slice, ast.Tuple) and len(e.slice.elts) == 2 and isinstance(e.slice.elts[1], ast.Slice) and not any((e.slice.elts[1].lower, e.slice.elts[1].upper, e.slice.elts[1].step)) else e.slice
+            if isinstance(rows, ast.Slice) and rows.step is None and rows.lower is not None and rows.upper is not None:
+                lo, hi = self.value(rows.lower, env), self.value(rows.upper, env)
+                if isinstance(lo, dict) and isinstance(hi, dict):
+                    return ("block", lo, hi, False)
+        return self.opaque(e, env)
+
+    # -- statements
+    @staticmethod
+    def stored(node: ast.AST) -> set[str]:
+        return {n.id for n in ast.walk(node) if isinstance(n, ast.Name) and isinstance(n.ctx, (ast.Store, ast.Del))}
+
+    def join(self, a: dict | None, b: dict | None) -> dict | None:
+        if a is None or b is None:
+            return a if b is None else b
+        out = {}
+        for n in a.keys() & b.keys():  # a local bound on one path only is not a known value
+            out[n] = a[n] if a[n] == b[n] else self.unknown()
+        return out
+
+    def look(self, node: ast.AST | None, env: dict) -> None:
+        if node is not None and self.probe is not None:
+            self.probe(node, env)
+
+    def run(self, stmts: list[ast.stmt], env: dict | None) -> dict | None:
+        """The environment after ``stmts`` (None when no path falls through)."""
+        for s in stmts:
+            if env is None:
+                return None
+            if s is self.stop_at:
+                self.at_stop = dict(env)
+                return None
+            if isinstance(s, ast.If):
+                self.look(s.test, env)
+                for n in self.stored(s.test):
+                    env[n] = self.unknown()
+                env = self.join(self.run(s.body, dict(env)), self.run(s.orelse, dict(env)))
+            elif isinstance(s, ast.With):
+                for it in s.items:
+                    self.look(it.context_expr, env)
+                for it in s.items:
+                    for n in self.stored(it):
+                        env[n] = self.unknown()
+                env = self.run(s.body, env)
+            elif isinstance(s, (ast.For, ast.While, ast.Try, ast.AsyncFor, ast.AsyncWith)) or type(s).__name__ in ("Match", "TryStar"):
+                # not followed: whatever is bound inside is unknown inside and after (the stop statement may be inside)
+                inner = self.stop_at is not None and any(sub is self.stop_at for sub in ast.walk(s))
+                for n in self.stored(s):
+                    env[n] = self.unknown()
+                if inner:
+                    for fld in ("body", "orelse", "finalbody"):
+                        if self.at_stop is None:
+                            self.run([x for x in getattr(s, fld, []) or []], dict(env))
+                    return None
+                self.look(s, env)
+            elif isinstance(s, ast.Continue):
+                self.ends.append(env)
+                return None
+            elif isinstance(s, (ast.Break, ast.Return, ast.Raise)):
+                self.look(s, env)
+                return None
+            elif isinstance(s, (ast.FunctionDef, ast.AsyncFunctionDef, ast.ClassDef)):
+                env[s.name] = self.unknown()
+            else:
+                self.look(s, env)
+                if isinstance(s, ast.Assign):
+                    v = self.value(s.value, env)
+                    for t in s.targets:
+                        if isinstance(t, ast.Name):
+                            env[t.id] = v
+                        else:
+                            for n in self.stored(t):
+                                env[n] = self.unknown()
+                elif isinstance(s, ast.AugAssign) and isinstance(s.target, ast.Name) and isinstance(s.op, (ast.Add, ast.Sub)):
+                    a, b = self.value(ast.Name(id=s.target.id, ctx=ast.Load()), env), self.value(s.value, env)
+                    env[s.target.id] = self.add(a, b, 1 if isinstance(s.op, ast.Add) else -1) if isinstance(a, dict) and isinstance(b, dict) else self.unknown()
+                elif isinstance(s, ast.AnnAssign) and isinstance(s.target, ast.Name) and s.value is not None:
+                    env[s.target.id] = self.value(s.value, env)
+                else:
+                    for n in self.stored(s):
+                        env[n] = self.unknown()
+                for w_ in ast.walk(s):  # a walrus re-binds in the middle of the statement
+                    if isinstance(w_, ast.NamedExpr):
+                        env[w_.target.id] = self.unknown()
+        return env
+
+
+def check_csv_rows(ctx: Ctx) -> None:
+    """11.1-ds-csv: the text reader of a design space reads every field of a variable from the variable's own rows:
+    bounds, value and the missing-value marker alike.  Decided by following the integer locals of the loop that adds
+    the variables: with ``C`` the value of the row cursor(s) when an iteration starts, every field is read from the
+    rows ``C : C + n`` (the type from row ``C``), and on every path to the next iteration the cursor(s) are ``C + n``,
+    ``n`` being a number computed from the variable of the loop.  The spelling is free (``k += n`` / ``k = k + n``,
+    a local for the end, a ``slice`` object, a start/end pair of cursors)."""
     f = ctx.index.method("algos/design_space.py", "DesignSpace", "from_csv")
     con = cname("algos/design_space.py", "DesignSpace", "from_csv")
     loops = [s_ for s_ in stmts_of(f) if isinstance(s_, ast.For) and any(isinstance(c, ast.Call) and last_attr(c) == "add_variable" for c in ast.walk(s_))]
     ctx.need(len(loops) == 1, "from_csv: the loop that adds the variables was not found")
     lp = loops[0]
-    incs = [s_ for s_ in ast.walk(lp) if isinstance(s_, ast.AugAssign) and isinstance(s_.op, ast.Add) and isinstance(s_.target, ast.Name)]
-    ctx.need(len(incs) == 1, "from_csv: the row cursor was not found")
-    cur, size = incs[0].target.id, norm_stmt(incs[0].value)
-    check_cursor_loops(ctx, "11.1-ds-csv", con, f, min_loops=1, only={cur})
-    n = 0
-    for sub in ast.walk(lp):
-        if isinstance(sub, ast.Subscript) and isinstance(sub.ctx, ast.Load) and dotted(sub.value) in ("float_data", "str_data") and isinstance(sub.slice, ast.Tuple) and len(sub.slice.elts) == 2:
-            rows = sub.slice.elts[0]
-            n += 1
-            if isinstance(rows, ast.Slice):
-                ok = rows.lower is not None and dotted(rows.lower) == cur and rows.upper is not None and norm_stmt(rows.upper) in (f"{cur} + {size}", f"{size} + {cur}") and rows.step is None
-            else:
-                ok = dotted(rows) == cur  # one row of the variable (its type)
-            ctx.ob("11.1-ds-csv", con, ok, f"`{norm_stmt(sub, 60)}` does not read the rows {cur}:{cur} + {size} of the variable being added: a field (or the missing-value marker) of another variable is attributed to it", node=sub, stmt=f"rows of `{norm_stmt(sub.slice.elts[1], 40)}` are the variable's own")
+    tables = {s_.targets[0].id for s_ in stmts_of(f) if isinstance(s_, ast.Assign) and isinstance(s_.targets[0], ast.Name) and isinstance(s_.value, ast.Call) and last_attr(s_.value) == "genfromtxt"}
+    ctx.need(tables, "from_csv: the tables read from the file were not found")
+    # values before the loop: two locals bound to the same value start equal
+    pre = _Windows(stop_at=lp)
+    pre.run(list(f.body), {})
+    ctx.need(pre.at_stop is not None, "from_csv: the loop that adds the variables is not reached by the straight-line analysis")
+    carried = sorted(n_ for n_ in _Windows.stored(ast.Module(body=lp.body, type_ignores=[])) if isinstance(pre.at_stop.get(n_), dict))
+    group = {n_: _Windows.render(pre.at_stop[n_]) for n_ in carried}  # local -> class of locals equal when an iteration starts
+    item = names_in(lp.target)
+    for _ in range(len(carried) + 2):
+        reads: list[tuple[ast.Subscript, object, object]] = []
+
+        def probe(node: ast.AST, env: dict, _reads=reads) -> None:
+            for sub in ast.walk(node):
+                if not (isinstance(sub, ast.Subscript) and isinstance(sub.ctx, ast.Load) and isinstance(sub.value, (ast.Name, ast.Subscript))):
+                    continue
+                if isinstance(sub.slice, ast.Tuple) and len(sub.slice.elts) != 2:
+                    continue
+                rows = sub.slice.elts[0] if isinstance(sub.slice, ast.Tuple) else sub.slice
+                held = env.get(sub.value.id) if isinstance(sub.value, ast.Name) else w.value(sub.value, env)
+                if isinstance(sub.value, ast.Name) and sub.value.id in tables and held is None:
+                    if isinstance(rows, ast.Slice):
+                        _reads.append((sub, w.value(rows.lower, env), w.value(rows.upper, env) if rows.step is None else None))
+                    else:
+                        v = w.value(rows, env)
+                        _reads.append((sub, v[1], None if v[3] else v[2]) if isinstance(v, tuple) else (sub, v, "row"))
+                elif isinstance(held, tuple) and held[0] == "block":
+                    # a local holding the rows a:b of a table: all of them (``block[:, c]``), or nothing is known
+                    whole = isinstance(rows, ast.Slice) and not any((rows.lower, rows.upper, rows.step))
+                    _reads.append((sub, held[1], held[2]) if whole else (sub, None, None))
+
+        w = _Windows(probe=probe, tables=tables)
+        for g_ in set(group.values()):
+            w.deps["@" + g_] = set()
+        last = w.run(list(lp.body), {n_: {"@" + group[n_]: 1} for n_ in carried})
+        ends = w.ends + ([last] if last is not None else [])
+        after = {}
+        for n_ in carried:
+            vals = [e_.get(n_) for e_ in ends]
+            after[n_] = vals[0] if vals and isinstance(vals[0], dict) and all(v == vals[0] for v in vals) else w.unknown()
+        finer = {n_: group[n_] + " -> " + _Windows.render(after[n_]) for n_ in carried}
+        if len(set(finer.values())) == len(set(group.values())):
+            break
+        group = {n_: str(sorted(set(finer.values())).index(finer[n_])) for n_ in carried}
+    n_rows = 0
+    used: dict[str, list] = {}
+
+    def column(sub: ast.Subscript) -> str:
+        return norm_stmt(sub.slice.elts[1], 40) if isinstance(sub.slice, ast.Tuple) else norm_stmt(sub, 40)
+
+    for sub, lo, hi in reads:
+        base = next((t for t in (lo or {}) if t.startswith("@")), None) if isinstance(lo, dict) and len(lo) == 1 and set(lo.values()) == {1} else None
+        members = [n_ for n_ in carried if "@" + group[n_] == base]
+        cur = "/".join(members) or "k"
+        ok = base is not None
+        width = None
+        if ok and hi != "row":
+            ok = isinstance(hi, dict)
+            width = w.add(hi, lo, -1) if ok else None
+        if ok:
+            used.setdefault(base, []).append((sub, width))
+        n_rows += 1
+        ctx.ob("11.1-ds-csv", con, ok, f"`{norm_stmt(sub, 60)}` does not read rows that start at the row cursor ({cur}) of the variable being added: a field (or the missing-value marker) of another variable is attributed to it", node=sub, stmt=f"rows of `{column(sub)}` start at the variable's first row")
+    ctx.ob("11.1-ds-csv", con, len(used) == 1 and n_rows >= 1, "the fields of a variable are read from rows counted from one running cursor", node=lp, stmt="one row cursor")
+    for base, subs in sorted(used.items()):
+        members = [n_ for n_ in carried if "@" + group[n_] == base]
+        cur = "/".join(members)
+        steps = [w.add(after[n_], {base: 1}, -1) for n_ in members]
+        ok = bool(ends) and bool(steps) and all(s_ == steps[0] for s_ in steps) and bool(steps[0]) and not any(t.startswith(("@", "?")) for t in steps[0])
+        ctx.ob("11.1-ds-csv", con, ok, f"the row cursor {cur} is not advanced by one and the same amount on every path to the next variable (a variable that is skipped, or added twice, shifts the rows of all the following ones)", node=lp, stmt=f"cursor {cur}: advanced once per variable on every path")
+        step = steps[0] if ok else None
+        ok = step is not None and bool(w.names_of(step) & item)
+        ctx.ob("11.1-ds-csv", con, ok, f"the row cursor {cur} advances by an amount that does not depend on the variable of the loop ({unparse(lp.target)}): rows are attributed with the size of another variable", node=lp, stmt=f"cursor {cur}: advance by the size of the own variable")
+        for sub, width in subs:
+            if width is not None:
+                ctx.ob("11.1-ds-csv", con, step is not None and width == step, f"`{norm_stmt(sub, 60)}` does not read exactly the rows of the variable being added ({cur} : {cur} + its size): a field (or the missing-value marker) of another variable is attributed to it", node=sub, stmt=f"rows of `{column(sub)}` are the variable's own")
     ctx.floor("11.1-ds-csv", 5)
 
 
